@@ -811,9 +811,9 @@ impl Engine for SinkSim {
     }
     fn runs(&self, tier: Tier) -> u64 {
         match (self.0, tier) {
-            (Which::C16, Tier::Quick) => 16_000,
+            (Which::C16, Tier::Quick) => 32_000,
             (Which::C16, Tier::Thorough) => 800_000,
-            (Which::C19, Tier::Quick) => 20_000,
+            (Which::C19, Tier::Quick) => 150_000,
             (Which::C19, Tier::Thorough) => 6_000_000,
         }
     }
